@@ -335,8 +335,8 @@ Definition analyze_usage_stm (acc: usage) (stm: stmt) : result usage :=
           let acc := fold_left (fun acc e => _add_usage_lits acc (snd e)) es acc in
           Ok (fold_left (fun acc e => _add_usage_lit acc (fst e)) es acc)
       | HHeadAgg _ _ es _ =>
-          (* elem.condition is a ConditionalLiteral node: `for stm in <AST>` *)
-          match es with [] => Ok acc | _ :: _ => Raise "TypeError" end
+          (* elem.condition is a ConditionalLiteral node, scanned as one statement (fix 2) *)
+          Ok (fold_left (fun acc e => _add_usage_stm acc (BCond (fst (snd e)) (snd (snd e)))) es acc)
       | HTheory _ => OutOfFragment
       end
   | SMin _ _ _ _ body => Ok (_add_usage acc body)           (* weight, priority and terms are not scanned *)
